@@ -48,6 +48,7 @@ fn generate(corpus: &Corpus, tier: Tier, run: u64, rng: &mut Rng) -> Option<Case
         resets: rng.chance(1, 8),
         continue_max: rng.chance(1, 3),
         jump_functions: false,
+        eval_any_knot: false,
     };
     let ops = gen_script(rng, &prog, &cfg);
     let host = default_host(&prog, rng);
